@@ -7,7 +7,7 @@
 //                                    always delivered last); cap 0 = default MemBuf (2 GB potential space)
 //              ALL                   every single split point 0..len with capacities 1, 2 and unlimited
 //              DRIP/<cap>            one byte per round
-// out: {"in":[..],"relaxed":r,"runs":[{"cap":c,"out":[decoded bytes in the order they left the parser],
+// out: {"in":[..],"relaxed":r,"runs":[{"caps":[c, ..],"out":[decoded bytes in the order they left the parser],
 //        "steps":[{"n":bytes delivered so far,"oc":"NeedMore|Done|Reject|Limit","used":input bytes consumed so far,"outn":decoded bytes so far}]}],"ub":b}
 #include "squid.h"
 #include "base/TextException.h"
@@ -20,9 +20,11 @@
 
 struct Step { size_t n; const char *oc; size_t used; size_t outn; };
 
-static void
-oneRun(const std::string &in, const std::vector<size_t> &cuts, const long cap, std::ostream &os)
+/// \returns ,"out":[..],"steps":[..] of one delivery schedule
+static std::string
+oneRun(const std::string &in, const std::vector<size_t> &cuts, const long cap)
 {
+    std::ostringstream os;
     std::string out;
     std::vector<Step> steps;
     {
@@ -70,10 +72,11 @@ oneRun(const std::string &in, const std::vector<size_t> &cuts, const long cap, s
             steps.push_back(Step{pos, oc, used, out.size()});
         }
     }
-    os << "{\"cap\":" << cap << ",\"out\":" << U::Bytes(out) << ",\"steps\":[";
+    os << ",\"out\":" << U::Bytes(out) << ",\"steps\":[";
     for (size_t i = 0; i < steps.size(); ++i)
         os << (i ? "," : "") << "{\"n\":" << steps[i].n << ",\"oc\":\"" << steps[i].oc << "\",\"used\":" << steps[i].used << ",\"outn\":" << steps[i].outn << "}";
     os << "]}";
+    return os.str();
 }
 
 int
@@ -91,17 +94,31 @@ main()
         std::ostringstream os;
         os << "{\"in\":" << U::Bytes(in) << ",\"relaxed\":" << Config.onoff.relaxed_header_parser << ",\"runs\":[";
         bool first = true;
-        const auto emit = [&](const std::vector<size_t> &cuts, const long cap) {
-            if (!first)
-                os << ",";
-            first = false;
-            oneRun(in, cuts, cap, os);
+        // schedules that differ only in the capacity and gave the same result are reported once ("caps" lists them)
+        const auto emit = [&](const std::vector<size_t> &cuts, const std::vector<long> &caps) {
+            std::vector<std::pair<std::string, std::string> > results; // result -> caps
+            for (const auto cap : caps) {
+                const auto r = oneRun(in, cuts, cap);
+                bool merged = false;
+                for (auto &known : results) {
+                    if (known.first == r) {
+                        known.second += "," + std::to_string(cap);
+                        merged = true;
+                        break;
+                    }
+                }
+                if (!merged)
+                    results.emplace_back(r, std::to_string(cap));
+            }
+            for (const auto &r : results) {
+                os << (first ? "" : ",") << "{\"caps\":[" << r.second << "]" << r.first;
+                first = false;
+            }
         };
         for (size_t i = 2; i < t.size(); ++i) {
             if (t[i] == "ALL") {
                 for (size_t k = 0; k <= in.size(); ++k)
-                    for (const long cap : {1L, 2L, 0L})
-                        emit(std::vector<size_t>{k, in.size()}, cap);
+                    emit(std::vector<size_t>{k, in.size()}, std::vector<long>{1L, 2L, 0L});
                 continue;
             }
             const auto slash = t[i].find('/');
@@ -123,7 +140,7 @@ main()
             }
             if (cuts.empty() || cuts.back() < in.size())
                 cuts.push_back(in.size());
-            emit(cuts, cap);
+            emit(cuts, std::vector<long>{cap});
         }
         os << "],\"ub\":" << U::B(U::TakeReports() > 0) << "}\n";
         std::cout << os.str() << std::flush;
